@@ -191,6 +191,7 @@ pub fn read_levels(bytes: &Bytes, field: &Field) -> Result<Levels, String> {
             for g in 0..rdr.num_row_groups() {
                 let rg = rdr.get_row_group(g).map_err(|e| e.to_string())?;
                 let cr = rg.get_column_reader(c).map_err(|e| e.to_string())?;
+                let expect: i64 = rg.metadata().column(c).num_values();
                 let mut d: Vec<i16> = vec![];
                 let mut rp: Vec<i16> = vec![];
                 let mut v: Vec<String> = vec![];
@@ -198,14 +199,23 @@ pub fn read_levels(bytes: &Bytes, field: &Field) -> Result<Levels, String> {
                     ($r:expr, $t:ty, $f:expr) => {{
                         let mut r = $r;
                         let mut round = 0usize;
+                        let mut idle = 0usize;
                         loop {
                             let mut vb: Vec<$t> = vec![];
                             let step = [1usize, 2, 3, 1000][round % 4];
                             round += 1;
                             let (recs, _nv, nl) = r.read_records(step, Some(&mut d), Some(&mut rp), &mut vb).map_err(|e| e.to_string())?;
                             v.extend(vb.iter().map($f));
+                            // an empty data page (content-defined chunking writes them) makes the reader
+                            // report "no more records" once: go on until the footer's level count is reached
+                            let have = if cd.max_def_level() > 0 { d.len() } else if cd.max_rep_level() > 0 { rp.len() } else { v.len() };
                             if recs == 0 && nl == 0 {
-                                break;
+                                idle += 1;
+                                if have as i64 >= expect || idle > 16 {
+                                    break;
+                                }
+                            } else {
+                                idle = 0;
                             }
                         }
                     }};
